@@ -578,7 +578,14 @@ class SolverState(object):
             self.expect(ok, 'C02.reject', lambda: dict(tight=tight, clip=clip, note='documented ValueError not raised'))
             self.ctx.label('rejected-mode')
             return
-        s.SetStrictRanges(list(lo), list(hi), tight=tight, clip=clip)
+        intside = op[5] if len(op) > 5 else None
+        asint = lambda seq: [int(v) if (v is not None and math.isfinite(v) and float(v).is_integer() and abs(v) < 2.0 ** 53) else v for v in seq]
+        if intside and all(v is not None and math.isfinite(v) and float(v).is_integer() for v in (hi if intside == 'hi' else lo)):
+            # bounds as a user types them: whole numbers as python ints on one side, fractions on the other
+            s.SetStrictRanges(asint(lo) if intside == 'lo' else list(lo), asint(hi) if intside == 'hi' else list(hi), tight=tight, clip=clip)
+            self.ctx.label('integer-typed-bounds:' + intside)
+        else:
+            s.SetStrictRanges(list(lo), list(hi), tight=tight, clip=clip)
         elo = [-1e3 if v is None else v for v in lo]; ehi = [1e3 if v is None else v for v in hi]
         self.cur_box = (elo, ehi); self.cur_mode = [tight, clip]; self.ranges_on = True
         self.box_log.append((self.cost.ncalls(), (elo, ehi)))
@@ -769,7 +776,15 @@ def c02_machine_factory(tier, Base):
                             hi[i] = x + eps; lo[i] = '-inf' if far == 'inf' else x - far
             lo = [None if data.draw(st.integers(0, 11)) == 0 else v for v in lo]
             hi = [None if data.draw(st.integers(0, 11)) == 0 else v for v in hi]
-            self.do(['ranges', lo, hi, tc[0], tc[1]])
+            intside = data.draw(st.sampled_from([None, None, None, 'hi', 'lo']))
+            if intside:
+                # the other side gets fractional values (the box stays non-empty)
+                for i in range(dim):
+                    if intside == 'hi' and isinstance(hi[i], float) and isinstance(lo[i], float) and math.isfinite(hi[i]) and math.isfinite(lo[i]):
+                        hi[i] = float(math.ceil(hi[i])); lo[i] = min(lo[i], hi[i]) - data.draw(st.sampled_from([0.25, 0.5, 0.75]))
+                    if intside == 'lo' and isinstance(hi[i], float) and isinstance(lo[i], float) and math.isfinite(hi[i]) and math.isfinite(lo[i]):
+                        lo[i] = float(math.floor(lo[i])); hi[i] = max(lo[i], hi[i]) + data.draw(st.sampled_from([0.25, 0.5, 0.75]))
+            self.do(['ranges', lo, hi, tc[0], tc[1], intside])
 
         @rule(data=st.data())
         def constraints(self, data):
